@@ -35,6 +35,7 @@ func TestC05_FanOut(t *testing.T) {
 		attachedAt := map[*node]int{w.nodes[0]: 0}
 		inflight := 0
 		late := false
+		closedNodes := 0
 		publish := func(t *rapid.T, n int) {
 			for i := 0; i < n; i++ {
 				k := rapid.SampledFrom(keys).Draw(t, "k")
@@ -85,6 +86,29 @@ func TestC05_FanOut(t *testing.T) {
 					late = true
 				}
 			},
+			"closeSibling": func(t *rapid.T) {
+				// a subscriber (or a whole clone subtree) goes away while events may be in flight:
+				// the others must not notice
+				var cs []*node
+				for _, n := range w.live() {
+					if n.kind != "root" {
+						cs = append(cs, n)
+					}
+				}
+				if len(cs) == 0 {
+					t.Skip("nothing to close")
+				}
+				n := rapid.SampledFrom(cs).Draw(t, "node")
+				if inflight < maxInflight/2 {
+					k := rapid.IntRange(0, maxInflight/2).Draw(t, "before")
+					publish(t, k)
+				}
+				w.closeNode(n)
+				closedNodes++
+				if inflight < maxInflight {
+					publish(t, rapid.IntRange(0, maxInflight-inflight).Draw(t, "after"))
+				}
+			},
 			"slow": func(t *rapid.T) {
 				n := rapid.SampledFrom(w.nodes).Draw(t, "node")
 				d := rapid.IntRange(0, 80).Draw(t, "us")
@@ -118,6 +142,28 @@ func TestC05_FanOut(t *testing.T) {
 			}
 			got := render(evs)
 			at := attachedAt[n]
+			if n.closed {
+				// closed at some point of the stream: what it received is a contiguous run of the
+				// published sequence starting no later than its creation point
+				if len(got) > 0 {
+					start := -1
+					for i := 0; i <= at && i < len(ref); i++ {
+						if ref[i] == got[0] {
+							start = i
+							break
+						}
+					}
+					if start < 0 {
+						w.fail("closed leaf %s (attached after %d published events) first received %q, which was not published at or before its creation point", n.path(), at, got[0])
+					}
+					for i := range got {
+						if start+i >= len(ref) || got[i] != ref[start+i] {
+							w.fail("closed leaf %s: its log is not a contiguous run of the published sequence at position %d: %q; log around %v", n.path(), i, got[i], window(got, i))
+						}
+					}
+				}
+				continue
+			}
 			if len(got) < len(ref)-at {
 				w.fail("leaf %s (attached after %d published events) received %d events but %d were published after its creation; log tail %v, reference tail %v", n.path(), at, len(got), len(ref)-at, tail(got, 6), tail(ref, 6))
 			}
@@ -137,7 +183,7 @@ func TestC05_FanOut(t *testing.T) {
 		hist := append([]string(nil), w.hist...)
 		statCase("C05", hashString(strings.Join(hist, ";")+fmt.Sprint(len(ref))), nt, func() interface{} {
 			return map[string]interface{}{"leaves": len(w.nodes), "events_published": len(ref), "history": hist}
-		}, fmt.Sprintf("late_subscriber=%v", late), fmt.Sprintf("events_ge50=%v", len(ref) >= 50))
+		}, fmt.Sprintf("late_subscriber=%v", late), fmt.Sprintf("events_ge50=%v", len(ref) >= 50), fmt.Sprintf("sibling_closed_mid_stream=%v", closedNodes > 0))
 		statExtraAdd("C05", "events_published", int64(len(ref)))
 	})
 }
